@@ -59,12 +59,13 @@ def quick_corpus():
     c.append(tok("lsn", s=-1, fs=-1, interp="dct", wall="box", guards=2, tag="lsn-dct-rev"))
     c.append(tok("usn", s=-1, fs=1, tag="usn-rev"))
     c.append(tok("usn", s=1, fs=-1, guards=0, wall={"kind": "poly", "n": 16}, tag="usn-g0-poly"))
-    c.append(tok("cdn", s=1, fs=1, tag="cdn-base"))
+    c.append(tok("cdn", s=1, fs=1, tag="cdn-base", ny_inner_lower_divertor=3, ny_outer_lower_divertor=5, ny_inner_upper_divertor=4, ny_outer_upper_divertor=6, ny_inner_sol=3, ny_outer_sol=4))
     c.append(tok("cdn", s=-1, fs=-1, orth=False, tag="cdn-nonorth-rev"))
-    c.append(tok("cdn", s=1, fs=1, orth=False, wall="slant2", tag="cdn-nonorth"))
-    c.append(tok("ldn", s=1, fs=1, tag="ldn-base"))
+    c.append(tok("cdn", s=1, fs=1, orth=False, wall="slant", guards=0, tag="cdn-nonorth"))
+    # double nulls with four different leg sizes and unequal inner/outer core (C08)
+    c.append(tok("ldn", s=1, fs=1, tag="ldn-base", ny_inner_lower_divertor=3, ny_outer_lower_divertor=4, ny_inner_upper_divertor=5, ny_outer_upper_divertor=6, ny_inner_sol=3, ny_outer_sol=4))
     c.append(tok("ldn", s=-1, fs=1, orth=False, tag="ldn-nonorth-rev"))
-    c.append(tok("udn", s=-1, fs=-1, guards=0, tag="udn-rev-g0"))
+    c.append(tok("udn", s=-1, fs=-1, guards=0, tag="udn-rev-g0", ny_inner_lower_divertor=4, ny_outer_lower_divertor=3, ny_inner_upper_divertor=5, ny_outer_upper_divertor=6, ny_inner_sol=3, ny_outer_sol=4))
     c.append(tok("ldn", s=1, fs=-1, interp="dct", guards=0, tag="ldn-dct-g0", eq_extra={"nR": 49, "nZ": 57}))
     c.append(tok("lsn", s=-1, fs=1, orth=False, tag="lsn-nonorth-rev", nonorthogonal_spacing_method="poloidal_orthogonal_combined"))
     c.append(tok("usn", s=-1, fs=-1, tag="usn-xyderiv", curvature_type="curl(b/B) with x-y derivatives", nx_core=4, nx_sol=4))
@@ -81,6 +82,7 @@ def quick_corpus():
     ps = f_.psi_axis + 1.2 * (f_.psi_bdry - f_.psi_axis)
     c.append(tok("lsn", s=-1, fs=1, tag="lsn-extrapolate", eq_extra={"pn_max": 1.0}, extrapolate_profiles=True, psi_sol=ps, psi_sol_inner=ps))
     c.append(circ())
+    c.append(dict(circ(y_boundary_guards=2, ny=12), tag="circ-guards2"))
     return c
 
 
